@@ -69,6 +69,7 @@ class Failure:
     exit_text: str = ''     # for postconditions: the exit the failure was reported at
     rendered: str = ''
     obligation: str = ''
+    col: int = 0            # column of the primary span in the generated file
 
     def ident(self):
         return self.obligation
@@ -91,6 +92,7 @@ class UnitResult:
     linemap: list = None
     text: str = ''
     other_errors: List[str] = field(default_factory=list)
+    dropped_hints: List[str] = field(default_factory=list)   # proof hints that no longer hold and were left out (see run_unit)
 
 
 def normalise(s: str) -> str:
@@ -113,8 +115,96 @@ def fn_for_line(u: extract.Unit, text_lines: List[str], line: int) -> str:
     return '?'
 
 
+HINT_ORIGIN = re.compile(r'^spec (hint|loopbody\d*|loopend\d*|afterloop\d*):')
+
+
+def blank_statement(text: str, line: int, col: int) -> Optional[str]:
+    """blank out (keeping every newline) the `assert ..;` / `assert .. by {..}` statement whose asserted expression
+    starts at (line, col); None if it cannot be delimited"""
+    lines = text.split('\n')
+    if not (0 < line <= len(lines)):
+        return None
+    off = sum(len(x) + 1 for x in lines[:line - 1]) + max(0, col - 1)
+    k = text.rfind('assert', max(0, off - 400), off + 6)
+    if k < 0 or not re.match(r'assert\b', text[k:k + 7]):
+        return None
+    # the statement must start a line of a spliced hint (nothing but blanks before it)
+    depth = 0
+    i = k
+    n = len(text)
+    end = None
+    opened_brace = False
+    while i < n:
+        c = text[i]
+        if c == '/' and text[i:i + 2] == '//':
+            i = text.find('\n', i)
+            if i < 0:
+                return None
+            continue
+        if c == '"':
+            j = i + 1
+            while j < n and text[j] != '"':
+                j += 2 if text[j] == '\\' else 1
+            i = j + 1
+            continue
+        if c in '([{':
+            if c == '{' and depth == 0:
+                opened_brace = True
+            depth += 1
+        elif c in ')]}':
+            depth -= 1
+            if depth < 0:
+                return None
+            if c == '}' and depth == 0 and opened_brace:
+                end = i + 1
+                m = re.match(r'\s*;', text[end:end + 8])
+                if m:
+                    end += m.end()
+                break
+        elif c == ';' and depth == 0:
+            end = i + 1
+            break
+        i += 1
+    if end is None:
+        return None
+    blank = ''.join(ch if ch == '\n' else ' ' for ch in text[k:end])
+    return text[:k] + blank + text[end:]
+
+
 def run_unit(name: str, repo: str = '/repo', extra_args: List[str] = None, text_override: str = None,
              tag: str = '', timeout: int = 600, rlimit: Optional[int] = None) -> UnitResult:
+    r = run_unit_once(name, repo, extra_args, text_override, tag, timeout, rlimit)
+    # A proof hint (an `assert` spliced in as a lemma step: `hint`, `loopbody`, `loopend`, `afterloop` directives) is
+    # an aid for the solver, not an obligation of any property.  After an edit of the code a hint may stop being true
+    # while every contract still holds - and Verus ASSUMES a failed assertion for the rest of the body, so nothing
+    # after it can be trusted either way.  So: leave the failed hints out and verify again.  What then fails is a real
+    # obligation (postcondition, invariant, precondition, await-point invariant, safety) and is reported as such; if
+    # nothing fails the code satisfies its contracts without those hints.
+    if text_override is not None:
+        return r
+    dropped = []
+    for _round in range(4):
+        hints = [f for f in r.failures if f.kind == 'assert' and HINT_ORIGIN.match(f.origin or '')]
+        if not hints or r.undecided or not r.text:
+            break
+        text = r.text
+        done = []
+        for f in sorted(hints, key=lambda f: (-f.line, -f.col)):
+            t2 = blank_statement(text, f.line, f.col)
+            if t2 is not None:
+                text = t2; done.append(f.obligation)
+        if not done:
+            break
+        dropped += done
+        fixed = text
+        r2 = run_unit_once(name, repo, extra_args, (lambda _t, _u, _lm, fixed=fixed: fixed), tag, timeout, rlimit)
+        r2.dropped_hints = list(dropped)
+        r = r2
+    return r
+
+
+def run_unit_once(name: str, repo: str = '/repo', extra_args: List[str] = None, text_override: str = None,
+                  tag: str = '', timeout: int = 600, rlimit: Optional[int] = None) -> UnitResult:
     r = _run_unit(name, repo, extra_args, text_override, tag, timeout, rlimit)
     # `await-try` clauses mention a place (e.g. the peer table) that may be mutably borrowed at that suspension point
     # in the current code: rustc then rejects the ghost read.  Such a clause is optional by declaration: retry without.
@@ -264,6 +354,7 @@ def _run_unit(name: str, repo: str = '/repo', extra_args: List[str] = None, text
             pass
         f = Failure(name, fn, kind, msg, line, span_text, origin, exit_text, d.get('rendered', '')[:4000])
         f.obligation = '%s::%s::%s::%s' % (name, fn, kind, span_text[:160]) + ((' @exit ' + exit_text[:80]) if exit_text else '')
+        f.col = prim.get('column_start', 0)
         res.failures.append(f)
     if out:
         vr = out.get('verification-results', {})
@@ -314,9 +405,12 @@ def text_from_span(lines, s):
 
 
 if __name__ == '__main__':
-    r = run_unit(sys.argv[1], sys.argv[2] if len(sys.argv) > 2 else '/repo')
+    # VERIF_KEEP_HINTS=1: development mode, report failing proof hints instead of leaving them out
+    r = (run_unit_once if os.environ.get('VERIF_KEEP_HINTS') else run_unit)(sys.argv[1], sys.argv[2] if len(sys.argv) > 2 else '/repo')
     print('ok' if r.ok else ('UNDECIDED ' + str(r.undecided) if r.undecided else 'FAIL'), r.verified, r.errors, '%.1fs' % r.wall_s)
     for f in r.failures:
         print(' -', f.obligation, '|', f.origin)
     for e in r.other_errors:
         print(' !', e)
+    for h in r.dropped_hints:
+        print(' ~ hint left out (no longer holds):', h)
